@@ -13,7 +13,7 @@ struct Case { int pop, fpat, ppat, coupling, dti, dampi, densi, steps, ids = 0, 
 // persistent ids carried by the cells at list positions 0..n-1: start-up; after a removal at the list head; after removals in between; late in a run (ids far ahead of positions)
 static unsigned scheme_id(int scheme, unsigned i) { switch (scheme) { case 0: return i; case 1: return i + 1; case 2: return 2 * i; case 3: return 3 + 4 * i; default: return 70000 + 3 * i; /* beyond 16 bits */ } }
 static const double DTS[] = {1e-3, 0.5, 1e-7}, DAMPS[] = {0.1, 5.0, 1e3}, DENS[] = {1.0, 1e-15 /* per-node masses of 1e-17: what a micrometre cell weighs in kilograms */, 1e3};   // the third value of each only in the thorough tier
-static const char* pop_name[] = {"[epithelial octahedron]", "[epithelial octahedron, epithelial tetrahedron]", "[epithelial octahedron, epithelial tetrahedron, ECM octahedron]", "[static cube, epithelial octahedron, epithelial tetrahedron]", "[epithelial octahedron, epithelial tetrahedron, epithelial cube]"};
+static const char* pop_name[] = {"[epithelial octahedron]", "[epithelial octahedron, epithelial tetrahedron]", "[epithelial octahedron, epithelial tetrahedron, ECM octahedron]", "[static cube, epithelial octahedron, epithelial tetrahedron]", "[epithelial octahedron, epithelial tetrahedron, epithelial cube]", "[static cube, ECM octahedron] (no cell can move: the clock still advances)"};
 static std::string case_json(const Case& c) { std::ostringstream o; o << "{\"population\":\"" << pop_name[c.pop] << "\",\"force_pattern\":" << c.fpat << ",\"momentum_pattern\":" << c.ppat << ",\"coupling\":" << c.coupling << ",\"dt\":" << DTS[c.dti] << ",\"damping\":" << DAMPS[c.dampi] << ",\"density\":" << DENS[c.densi] << ",\"persistent_ids\":\"" << scheme_id(c.ids, 0) << "," << scheme_id(c.ids, 1) << ",..\",\"free_node_slots\":" << c.slots << ",\"steps\":" << c.steps << "}"; return o.str(); }
 static std::string case_text(const Case& c) { std::ostringstream o; o << c.pop << " " << c.fpat << " " << c.ppat << " " << c.coupling << " " << c.dti << " " << c.dampi << " " << c.densi << " " << c.steps << " " << c.ids << " " << c.slots; return o.str(); }
 
@@ -42,6 +42,7 @@ static std::string run_case(const Case& cs, long* steps_done = nullptr, long* fr
     switch (cs.pop) { case 0: cells = {make_cell(octahedron(), 0, epi())}; break; case 1: cells = {make_cell(octahedron(), 0, epi()), make_cell(translated(tetrahedron(), 2.5, 0, 0), 1, epi())}; break;
         case 2: cells = {make_cell(octahedron(), 0, epi()), make_cell(translated(tetrahedron(), 2.5, 0, 0), 1, epi()), make_cell(translated(octahedron(), 0, 3, 0), 2, stat(1))}; break;
         case 3: cells = {make_cell(translated(cube12(), 0, -3, 0), 0, stat(4)), make_cell(octahedron(), 1, epi()), make_cell(translated(tetrahedron(), 2.5, 0, 0), 2, epi())}; break;
+        case 5: cells = {make_cell(translated(cube12(), 0, -3, 0), 0, stat(4)), make_cell(translated(octahedron(), 0, 3, 0), 1, stat(1))}; break;
         default: cells = {make_cell(octahedron(), 0, epi()), make_cell(translated(tetrahedron(), 2.5, 0, 0), 1, epi()), make_cell(translated(cube12(), 0, 0, 2.5), 2, epi())}; }
     for (unsigned i = 0; i < cells.size(); i++) { cells[i]->set_id(scheme_id(cs.ids, i)); cells[i]->set_local_id(i); }
     // free node slots as remeshing leaves them: one real edge collapse on every non-static cell that admits one (the node list keeps the dead slot until the next rebase)
@@ -133,8 +134,8 @@ static std::string run_case(const Case& cs, long* steps_done = nullptr, long* fr
 static void explore(Result& R) {
     long cases = 0, steps = 0, free_slots = 0; const bool th = R.args.thorough(); const int NV = th ? 3 : 2, NSTEP = th ? 6 : 3;
     const int NPAT = 4;
-    for (int pop = 0; pop < 5; pop++) for (int fp = 0; fp < NPAT; fp++) for (int pp = 0; pp < (DYNAMIC_MODEL_INDEX == 0 ? NPAT : 1); pp++) for (int cp = 0; cp < 5; cp++) for (int a = 0; a < NV; a++) for (int b = 0; b < NV; b++) for (int d = 0; d < NV; d++) for (int n = 1; n <= NSTEP; n++) for (int ids = 0; ids < 5; ids++) for (int sl = 0; sl < 2; sl++) {
-        if (CONTACT_MODEL_INDEX == 0 && cp != 0) continue; if ((ids == 1 || ids == 2 || ids == 4) && fp != 3) continue;   /* the two intermediate id assignments only with the position-dependent force pattern */ if (pop == 0 && cp != 0) continue; if (cp == 4 && !(CONTACT_MODEL_INDEX == 2 && pop == 4)) continue;
+    for (int pop = 0; pop < 6; pop++) for (int fp = 0; fp < NPAT; fp++) for (int pp = 0; pp < (DYNAMIC_MODEL_INDEX == 0 ? NPAT : 1); pp++) for (int cp = 0; cp < 5; cp++) for (int a = 0; a < NV; a++) for (int b = 0; b < NV; b++) for (int d = 0; d < NV; d++) for (int n = 1; n <= NSTEP; n++) for (int ids = 0; ids < 5; ids++) for (int sl = 0; sl < 2; sl++) {
+        if (CONTACT_MODEL_INDEX == 0 && cp != 0) continue; if ((ids == 1 || ids == 2 || ids == 4) && fp != 3) continue;   /* the two intermediate id assignments only with the position-dependent force pattern */ if ((pop == 0 || pop == 5) && cp != 0) continue; if (pop == 5 && (ids != 0 || sl != 0)) continue; if (cp == 4 && !(CONTACT_MODEL_INDEX == 2 && pop == 4)) continue;
         Case c{pop, fp, pp, cp, a, b, d, n, ids, sl}; std::string e = run_case(c, &steps, &free_slots); if (e == "skip") continue; cases++;
         if (!e.empty()) R.violation(clause_of(e) + "|" + (cp ? "coupled" : "uncoupled"), case_json(c) + ": " + e, "case=" + case_text(c) + "\n");
         if (cases % 1500 == 1) R.sample(case_json(c)); }
